@@ -17,16 +17,18 @@ where
             RustType::Complex(props) => write_complex_type(writer, props),
             RustType::Simple(props) => write_simple_type(writer, props),
             RustType::Element(props) => {
-                let ElementProps { xml_name, element_type } = &**props;
+                let ElementProps {
+                    xml_name,
+                    element_type,
+                    target_namespace,
+                } = &**props;
                 let rust_name = xml_name_to_rust_name(xml_name);
 
                 match element_type {
                     ElementType::RustType(rust_type) => {
-                        if let Some(segment) = rust_type.to_string().split(':').next_back() {
-                            if segment == rust_name {
-                                // NOOP
-                                return Ok(());
-                            }
+                        if is_same_type(rust_type, &rust_name, target_namespace.as_ref()) {
+                            // NOOP
+                            return Ok(());
                         }
 
                         writeln!(writer, "pub type {rust_name} = {rust_type};")?;
@@ -45,6 +47,19 @@ where
     }
 }
 
+/// An alias of a type to itself is not written. Only a type of the same name in the same
+/// namespace (module) is "itself": a type of another namespace that carries the same local name
+/// is a different type.
+fn is_same_type(rust_type: &RustFieldType, rust_name: &str, own_namespace: Option<&Rc<Namespace>>) -> bool {
+    match rust_type {
+        RustFieldType::Other(other) => {
+            other.name == rust_name
+                && (other.module.is_none() || other.module.as_deref() == own_namespace.map(|ns| ns.rust_mod_name.as_str()))
+        }
+        builtin => builtin.to_string() == rust_name,
+    }
+}
+
 fn write_simple_type<W>(writer: &mut W, props: &SimpleProps) -> WriterResult<()>
 where
     W: io::Write,
@@ -58,11 +73,9 @@ where
     } = &props;
 
     let rust_name = xml_name_to_rust_name(xml_name);
-    if let Some(segment) = rust_type.to_string().split(':').next_back() {
-        if segment == rust_name {
-            // NOOP
-            return Ok(());
-        }
+    if is_same_type(rust_type, &rust_name, target_namespace.as_ref()) {
+        // NOOP
+        return Ok(());
     }
 
     // for now, write this as a type alias; we may want to change this to a newtype
